@@ -119,6 +119,10 @@ Proof.
   intro m. destruct m; unfold pc, on_conn, conn_msg_simple, seq2, rel_dc, erase_td, choke_reqs, down_set_not_queued, idle_down,
     down_set_queued, up_set_queued, up_set_not_queued, seq2, rel_dc, erase_td; pc_tac.
 Qed.
+Lemma pc_snub : pc (on_conn up_snub).
+Proof. unfold pc, on_conn, up_snub. pc_tac. Qed.
+Lemma pc_unsnub : pc (on_conn up_unsnub).
+Proof. unfold pc, on_conn, up_unsnub. pc_tac. Qed.
 Lemma pc_lib_msg : forall m, pc (on_conn (lib_msg_row m)).
 Proof. intro m. destruct m; unfold pc, on_conn, lib_msg_row, seq2, erase_tu, rel_uc; pc_tac. Qed.
 Lemma pc_ph_valid : forall b v, pc (on_conn (ph_valid_row b v)).
@@ -151,13 +155,15 @@ Proof.
   destruct m; pc_tac.
 Qed.
 #[export] Hint Resolve pc_tc_add pc_conn_msg pc_lib_msg pc_ph_valid pc_ph_skip pc_dissim pc_after pc_after_tc
-  pc_hs_bytes pc_pex_enable pc_hs_msg : c16b.
+  pc_hs_bytes pc_pex_enable pc_hs_msg pc_snub pc_unsnub : c16b.
 
 Lemma dec_tc_all_binv : forall ow s, BInv s -> BInv (dec_tc_all ow s).
 Proof.
   unfold dec_tc_all. induction ow; intros s H; cbn; auto. apply IHow. apply with_row_binv; auto with c16b.
 Qed.
 
+Lemma set_hq_binv : forall l s, BInv s -> BInv (set_hq l s).
+Proof. intros l s H. exact H. Qed.
 Lemma reject_binv : forall s, BInv s -> BInv (reject s).
 Proof. intros s H. exact H. Qed.
 Lemma bl_sub_refl : forall bl, bl_sub bl bl.
@@ -199,6 +205,7 @@ Ltac sub_tac := first
   | unfold rel_all; apply bl_sub_map; intro; apply blk_sub_rel ].
 Ltac binv_step := match goal with
   | |- BInv (reject _) => apply reject_binv
+  | |- BInv (set_hq _ _) => apply set_hq_binv
   | |- BInv (dec_tc_all _ _) => apply dec_tc_all_binv
   | |- BInv (with_conn _ _ _) => unfold with_conn
   | |- BInv (with_row _ _ _) => apply with_row_binv; [ solve [ auto with c16b ] | ]
@@ -238,7 +245,7 @@ Proof.
   destruct (upd c f (rows s)) as [[rs dv] ok]. cbn [fst rows] in *. exists r. split; auto. rewrite K. exact G.
 Qed.
 Lemma abort_row_cid : forall r, cid (fst (abort_row r)) = cid r.
-Proof. intros [c p i e h dl bf xi xp f pe ui uu ur di du dr dn px tu td uc dc rq cu ps pc0 phh t cl]. destruct p; reflexivity. Qed.
+Proof. intros [c p i e h dl bf xi xp f pe ui uu ur usn di du dr dn px tu td uc dc rq cu ps pc0 phh t cl]. destruct p; reflexivity. Qed.
 
 Lemma abort_conn_binv : forall c s, BInv s -> BInv (abort_conn c s).
 Proof.
@@ -379,8 +386,9 @@ Lemma step_binv : forall s o, BInv s -> BInv (step s o).
 Proof.
   intros s o H. destruct o; cbn [step].
   - destruct (get_row c (rows s)); [apply reject_binv; auto|].
-    intros b Hb Hf c0 st Hin Hne. destruct (H b Hb Hf c0 st Hin Hne) as (r & G & P).
-    exists r. split; auto. cbn [rows]. unfold get_row in *. apply find_app_some. exact G.
+    destruct (sockfull s); [destruct incoming; auto|];
+    intros b Hb Hf c0 st Hin Hne; destruct (H b Hb Hf c0 st Hin Hne) as (r & G & P);
+    exists r; (split; auto); cbn [rows]; unfold get_row in *; apply find_app_some; exact G.
   - apply with_row_binv; auto with c16b.
   - apply pmsg_step_binv; auto.
   - destruct m; unfold with_conn; try (apply with_row_binv; auto with c16b; fail).
@@ -401,6 +409,10 @@ Proof.
   - apply do_close_binv.
   - apply do_close_binv.
   - destruct (opened s); exact H.
+  - exact H.
+  - exact H.
+  - unfold with_conn. apply with_row_binv; auto with c16b.
+  - unfold with_conn. apply with_row_binv; auto with c16b.
   - exact H.
   - exact H.
 Qed.
